@@ -48,6 +48,10 @@ class Model:
         self.insts = []      # (name, formal params [(kind,name)], template/instance name, [args])   args: ("k", K) / ("v", varname)
         self.procs = []      # names
         self.prio = []       # separators between consecutive processes: "," or "<"
+        # verbatim extra text (used by the differential checks only; expected() does not describe it)
+        self.xg = ""         # appended to the global declarations
+        self.xs_pre = ""     # system section, before the instantiations
+        self.xs_post = ""    # system section, after the `system` line (progress measures, gantt chart)
 
 
 PARAM_TEXT = {"value": "int %s", "ref": "int &%s", "const": "const int %s", "range": "int[0,1] %s"}
@@ -170,7 +174,7 @@ def render_xml(m, queries=None):
                                decl=((("int l1 = %d;" % t.locals) if t.locals is not None else "") + t.xdecl) or None,
                                locations=locs, branchpoints=t.bps, init=t.locs[t.init].lid if t.locs else None,
                                transitions=trs))
-    doc = X.nta(GDECL + (" int gextra = %d;" % m.gextra if m.gextra is not None else ""), tpls, system_text(m), queries)
+    doc = X.nta(GDECL + (" int gextra = %d;" % m.gextra if m.gextra is not None else "") + m.xg, tpls, m.xs_pre + system_text(m) + m.xs_post, queries)
     if m.graphics:
         import re
         doc = re.sub(r'<location id="([^"]*)">', r'<location id="\1" x="-30" y="40" color="#ff0000">', doc)
@@ -195,7 +199,7 @@ def system_text(m):
 
 
 def render_xta(m, chain=True):
-    s = GDECL + (" int gextra = %d;" % m.gextra if m.gextra is not None else "") + "\n"
+    s = GDECL + (" int gextra = %d;" % m.gextra if m.gextra is not None else "") + m.xg + "\n"
     for t in m.tpls:
         s += "process %s(%s) {\n" % (t.name, params_text(t.params))
         if t.locals is not None:
@@ -243,7 +247,7 @@ def render_xta(m, chain=True):
                     tr.append("%s %s %s {%s }" % (node_sym(t, e.src), "-u->" if e.ctrl is False else "->", node_sym(t, e.dst), body))
             s += "trans\n  " + ",\n  ".join(tr) + ";\n"
         s += "}\n"
-    return s + system_text(m) + "\n"
+    return s + m.xs_pre + system_text(m) + m.xs_post + "\n"
 
 
 # ---- the document the library must build --------------------------------------------------------------
